@@ -51,6 +51,12 @@ def result_from_world(w, res=None):
         res.faults['timer-first'] = sim.stats['event-first']
     for sig, detail, seq in sim.violations:
         res.violations.append((sig, detail))
+    if sim.end_state == 'real-hang':
+        # decided here for every property: a networking (or calling) thread
+        # stuck in an endless loop inside the library
+        res.violations.append(('%s/real-hang:%s' % (w.prop_id, sim.end_detail),
+                               {'where': sim.end_detail}))
+        res.poisoned = True
     return res
 
 
